@@ -11,30 +11,25 @@ pub fn run(ctx: &Ctx) -> Report {
     let kmax = ctx.pick(2usize, 4);
     let depth = ctx.pick(3usize, 4);
     let mut per = vec![];
-    let mut inits: Vec<(String, Allocator, usize)> = vec![];
+    // start states are described, not shared: (description, heap limit or None, ghost atoms, ghost pairs); every worker
+    // builds its own allocator (the harness must not require `Allocator: Sync` / `Send`)
+    let mut inits: Vec<(String, Option<usize>, usize, usize)> = vec![];
     // heap limits
     for h in 1..=hmax {
-        inits.push((format!("new_limited({h})"), Allocator::new_limited(h).verif_fork(), h));
+        inits.push((format!("new_limited({h})"), Some(h), 0, 0));
     }
     // heap limits next to the sizes of the large alphabet atoms (49 and 1100 bytes, their concatenations) and the
     // pre-charged byte: the large-atom and concat paths then meet the cap from both sides
     let big: Vec<usize> = if ctx.quick() { vec![1101, 1102, 1105] } else { vec![49, 50, 51, 52, 99, 1100, 1101, 1102, 1105, 1150, 1151, 2201, 2202] };
     for h in &big {
-        inits.push((format!("new_limited({h})"), Allocator::new_limited(*h).verif_fork(), *h));
+        inits.push((format!("new_limited({h})"), Some(*h), 0, 0));
     }
     // atom / pair caps: pre-load with ghosts to distance k from the cap
     for k in 0..=kmax {
-        let mut a = Allocator::new();
-        a.add_ghost_atom(MAX_ATOMS - 2 - k).unwrap();
-        inits.push((format!("new()+add_ghost_atom(MAX-2-{k})"), a.verif_fork(), u32::MAX as usize));
-        let mut a = Allocator::new();
-        a.add_ghost_pair(MAX_PAIRS - k).unwrap();
-        inits.push((format!("new()+add_ghost_pair(MAX-{k})"), a.verif_fork(), u32::MAX as usize));
+        inits.push((format!("new()+add_ghost_atom(MAX-2-{k})"), None, MAX_ATOMS - 2 - k, 0));
+        inits.push((format!("new()+add_ghost_pair(MAX-{k})"), None, 0, MAX_PAIRS - k));
         // both caps and a heap limit at once
-        let mut a = Allocator::new_limited(3 + k);
-        a.add_ghost_atom(MAX_ATOMS - 2 - k).unwrap();
-        a.add_ghost_pair(MAX_PAIRS - k).unwrap();
-        inits.push((format!("new_limited({})+ghost atoms MAX-2-{k}+ghost pairs MAX-{k}", 3 + k), a.verif_fork(), 3 + k));
+        inits.push((format!("new_limited({})+ghost atoms MAX-2-{k}+ghost pairs MAX-{k}", 3 + k), Some(3 + k), MAX_ATOMS - 2 - k, MAX_PAIRS - k));
     }
     // degenerate: heap limit 0 is exceeded by the pre-charged byte of `one` from construction
     {
@@ -44,8 +39,22 @@ pub fn run(ctx: &Ctx) -> Report {
         }
     }
     let al = if ctx.quick() { Alphabet::thin() } else { Alphabet::full() };
-    for (desc, tmpl, limit) in &inits {
-        let r = bfs(ctx, || St::new(tmpl.verif_fork(), *limit), desc, &al, depth, modes, 30_000_000);
+    for (desc, hl, ghost_atoms, ghost_pairs) in &inits {
+        let limit = hl.unwrap_or(u32::MAX as usize);
+        let init = || {
+            let mut a = match hl {
+                Some(h) => Allocator::new_limited(*h),
+                None => Allocator::new(),
+            };
+            if *ghost_atoms > 0 {
+                a.add_ghost_atom(*ghost_atoms).unwrap();
+            }
+            if *ghost_pairs > 0 {
+                a.add_ghost_pair(*ghost_pairs).unwrap();
+            }
+            St::new(a, limit)
+        };
+        let r = bfs(ctx, init, desc, &al, depth, modes, 30_000_000);
         rep.states += r.states;
         rep.transitions += r.transitions;
         per.push(json!({"init": desc, "depth": depth, "states": r.states, "transitions": r.transitions, "cap_failures": r.acc.get("cap_failures")}));
